@@ -39,6 +39,7 @@ struct Case {
 struct Outcome {
     trace: Trace,
     rec: RunRecord,
+    requests: std::collections::BTreeMap<String, usize>,
     try_grows: usize,
     refused: usize,
     peak: usize,
@@ -47,6 +48,8 @@ struct Outcome {
     finishes: usize,
     /// per fault of the spec: did the run reach it
     triggered: Vec<bool>,
+    /// what the output streams did when polled once more after their first error: none / err / batch / pending / panic
+    after_error: [usize; 5],
 }
 
 fn identity(p: Arc<dyn datafusion_physical_plan::ExecutionPlan>, _: &Spec) -> Arc<dyn datafusion_physical_plan::ExecutionPlan> {
@@ -77,6 +80,7 @@ fn run(spec: &Spec, prefix: &[usize]) -> Outcome {
     Outcome {
         trace,
         rec,
+        requests: probe.pool.requests(),
         try_grows: probe.pool.try_grows.load(Ordering::SeqCst),
         refused,
         peak: probe.pool.peak.load(Ordering::SeqCst),
@@ -84,6 +88,13 @@ fn run(spec: &Spec, prefix: &[usize]) -> Outcome {
         writes,
         finishes,
         triggered,
+        after_error: [
+            probe.consumer.after_error_none.load(Ordering::SeqCst),
+            probe.consumer.after_error_err.load(Ordering::SeqCst),
+            probe.consumer.after_error_batch.load(Ordering::SeqCst),
+            probe.consumer.after_error_pending.load(Ordering::SeqCst),
+            probe.consumer.after_error_panic.load(Ordering::SeqCst),
+        ],
     }
 }
 
@@ -95,6 +106,8 @@ fn all_rows_text(rec: &RunRecord) -> Vec<String> {
 #[derive(Clone, Debug)]
 struct Baseline {
     rows: Vec<String>,
+    /// try_grow requests per memory consumer
+    requests: std::collections::BTreeMap<String, usize>,
     try_grows: usize,
     created: usize,
     writes: usize,
@@ -125,6 +138,7 @@ fn baseline(spec: &Spec) -> Result<Baseline, String> {
     let layout = srcs.iter().map(|g| g.gates.iter().map(|x| x.lock().unreleased() - 1).collect()).collect();
     Ok(Baseline {
         rows: all_rows_text(&o.rec),
+        requests: o.requests.clone(),
         try_grows: o.try_grows,
         created: o.created,
         writes: o.writes,
@@ -191,6 +205,11 @@ fn check(spec: &Spec, base: &Baseline, o: &Outcome) -> Result<&'static str, (Str
 fn run_case(c: &Case) -> Result<(), String> {
     let base = baseline(&c.spec)?;
     let o = run(&c.spec, &c.prefix);
+    if std::env::var("C20_TRACE").is_ok() {
+        eprintln!("actions {:?}\nlog {:?}\nenabled {:?}\nerrors {:?}\nrows {:?}\nbase rows {:?}\ntry_grows {} created {} writes {} finishes {} triggered {:?}",
+            o.rec.actions, o.rec.log, o.trace.enabled, o.rec.outputs.iter().map(|x| x.error.clone()).collect::<Vec<_>>(), all_rows_text(&o.rec), base.rows,
+            o.try_grows, o.created, o.writes, o.finishes, o.triggered);
+    }
     check(&c.spec, &base, &o).map(|_| ()).map_err(|(_, w)| w)
 }
 
@@ -234,8 +253,10 @@ fn single_faults(spec: &Spec, base: &Baseline) -> Vec<Fault> {
             }
         }
     }
-    for k in 0..base.try_grows {
-        v.push(Fault::Refuse { k });
+    for (consumer, n) in &base.requests {
+        for k in 0..*n {
+            v.push(Fault::Refuse { consumer: consumer.clone(), k });
+        }
     }
     for k in 0..base.created {
         v.push(Fault::SpillCreate { k });
@@ -267,9 +288,9 @@ fn fault_sets(ctx: &Ctx, spec: &Spec, base: &Baseline) -> Vec<Vec<Fault>> {
         }
         // a refusal on the unbounded pool makes spillable operators spill: pair it with the first spill faults
         if spec.budget.is_none() {
-            for k in 0..base.try_grows {
+            for r in singles.iter().filter(|f| matches!(f, Fault::Refuse { .. })) {
                 for f in [Fault::SpillCreate { k: 0 }, Fault::SpillWrite { k: 0 }, Fault::SpillWrite { k: 1 }, Fault::SpillFinish { k: 0 }] {
-                    sets.push(vec![Fault::Refuse { k }, f]);
+                    sets.push(vec![r.clone(), f]);
                 }
             }
         }
@@ -278,25 +299,46 @@ fn fault_sets(ctx: &Ctx, spec: &Spec, base: &Baseline) -> Vec<Vec<Fault>> {
 }
 
 fn explore(ctx: &Ctx) {
-    let batch_sizes: Vec<usize> = ctx.pick(vec![8192], vec![8192, 2]);
-    // scenarios = shape x batch size x budget
-    let protos: Vec<(Shape, usize)> = ALL_SHAPES.iter().flat_map(|s| batch_sizes.iter().map(move |b| (*s, *b))).collect();
-    let calibrated: Vec<(Shape, usize, Option<(usize, usize)>)> = protos
+    // scenarios = shape x batch size x budget.  Shapes with a coalescing RepartitionExec are only deterministic
+    // under memory pressure with batch size 1 (see Shape::has_coalescing_repartition): for them the memory / spill
+    // faults and the spilling budget are explored with batch size 1, the source errors also with the default size.
+    let mut protos: Vec<(Shape, usize, bool)> = vec![]; // (shape, batch size, source faults only)
+    for s in ALL_SHAPES {
+        if s.has_coalescing_repartition() {
+            protos.push((*s, 8192, true));
+            protos.push((*s, 1, false));
+            if ctx.thorough() {
+                protos.push((*s, 2, true));
+            }
+        } else {
+            protos.push((*s, 8192, false));
+            if ctx.thorough() {
+                protos.push((*s, 2, false));
+            }
+        }
+    }
+    let batch_sizes = "8192 (thorough: and 2); 1 for memory/spill faults of shapes with a coalescing RepartitionExec";
+    let calibrated: Vec<(Shape, usize, bool, Option<(usize, usize)>)> = protos
         .par_iter()
-        .map(|(s, b)| match mc_core::catch(|| calibrate(*s, *b)).unwrap_or_else(Err) {
-            Ok(x) => (*s, *b, x),
-            Err(e) => {
-                ctx.machinery_error(format!("calibration of {s:?}: {e}"));
-                (*s, *b, None)
+        .map(|(s, b, so)| {
+            if *so {
+                return (*s, *b, *so, None);
+            }
+            match mc_core::catch(|| calibrate(*s, *b)).unwrap_or_else(Err) {
+                Ok(x) => (*s, *b, *so, x),
+                Err(e) => {
+                    ctx.machinery_error(format!("calibration of {s:?}: {e}"));
+                    (*s, *b, *so, None)
+                }
             }
         })
         .collect();
-    let mut scenarios: Vec<Spec> = vec![];
+    let mut scenarios: Vec<(Spec, bool)> = vec![];
     let mut budgets = serde_json::Map::new();
-    for (s, b, cal) in &calibrated {
-        scenarios.push(Spec::new(*s, None, *b));
+    for (s, b, so, cal) in &calibrated {
+        scenarios.push((Spec::new(*s, None, *b), *so));
         if let Some((limit, files)) = cal {
-            scenarios.push(Spec::new(*s, Some(*limit), *b));
+            scenarios.push((Spec::new(*s, Some(*limit), *b), *so));
             budgets.insert(format!("{s:?}/bs{b}"), json!({"fair_spill_pool_limit": limit, "spill_files_fault_free": files}));
         }
     }
@@ -314,10 +356,10 @@ fn explore(ctx: &Ctx) {
     );
     let per_shape: parking_lot::Mutex<HashMap<String, [u64; 4]>> = Default::default();
     // work items = (scenario, baseline, fault set)
-    let bases: Vec<(Spec, Baseline)> = scenarios
+    let bases: Vec<(Spec, bool, Baseline)> = scenarios
         .par_iter()
-        .filter_map(|s| match mc_core::catch(|| baseline(s)).unwrap_or_else(Err) {
-            Ok(b) => Some((s.clone(), b)),
+        .filter_map(|(s, so)| match mc_core::catch(|| baseline(s)).unwrap_or_else(Err) {
+            Ok(b) => Some((s.clone(), *so, b)),
             Err(e) => {
                 ctx.violation(format!("{:?}|none|fault_free_failure", s.shape), e, json!({"spec": s, "prefix": []}));
                 None
@@ -325,8 +367,11 @@ fn explore(ctx: &Ctx) {
         })
         .collect();
     let mut items: Vec<(Spec, &Baseline)> = vec![];
-    for (s, b) in &bases {
+    for (s, so, b) in &bases {
         for fs in fault_sets(ctx, s, b) {
+            if *so && !fs.iter().all(|f| matches!(f, Fault::Source { .. })) {
+                continue;
+            }
             let mut sp = s.clone();
             sp.faults = fs;
             items.push((sp, b));
@@ -348,11 +393,29 @@ fn explore(ctx: &Ctx) {
                     Ok(o) => o,
                     Err(p) => {
                         let key = format!("{:?}|{}|panic", spec.shape, spec.faults.iter().map(|f| f.kind()).collect::<Vec<_>>().join("+"));
+                        if std::env::var("C20_TRACE").is_ok() {
+                            eprintln!("PANIC-CASE {}", json!({"spec": spec, "prefix": prefix}));
+                        }
                         ctx.violation(key, p, json!({"spec": spec, "prefix": prefix}));
                         return Trace { choices: prefix.to_vec(), enabled: vec![1; prefix.len()] };
                     }
                 };
+                if std::env::var("C20_DETERMINISM").is_ok() {
+                    let o2 = run(spec, prefix);
+                    if o2.trace.choices != o.trace.choices || o2.trace.enabled != o.trace.enabled || o2.rec.log != o.rec.log {
+                        eprintln!("NONDETERMINISTIC {} prefix {:?}\n  run1 {:?}\n  run2 {:?}", json!(spec), prefix, o.rec.log, o2.rec.log);
+                        ctx.count("nondeterministic_executions", 1);
+                    }
+                }
                 ctx.eval();
+                for (i, n) in ["none", "err_again", "batch", "pending", "panic"].iter().enumerate() {
+                    if o.after_error[i] > 0 {
+                        ctx.count(&format!("informational.poll_after_first_error.{n}"), o.after_error[i] as u64);
+                        if i > 0 {
+                            ctx.count(&format!("informational.poll_after_first_error.{n}.{:?}", spec.shape), o.after_error[i] as u64);
+                        }
+                    }
+                }
                 let kinds = spec.faults.iter().map(|f| f.kind()).collect::<Vec<_>>().join("+");
                 match check(spec, base, &o) {
                     Ok(how) => {
@@ -380,6 +443,9 @@ fn explore(ctx: &Ctx) {
                     }
                     Err((sym, what)) => {
                         let key = format!("{:?}|{kinds}|{sym}", spec.shape);
+                        if std::env::var("C20_TRACE").is_ok() {
+                            eprintln!("VIOLATION-CASE {key} {what} {}", json!({"spec": spec, "prefix": o.trace.choices}));
+                        }
                         ctx.violation(key, format!("{what} [budget {:?}, batch_size {}, faults {:?}]", spec.budget, spec.batch_size, spec.faults), json!({"spec": spec, "prefix": o.trace.choices}));
                     }
                 }
